@@ -144,7 +144,7 @@ def pat_str(p):
             return short(p["cdef"], 2)
         if "bytes" in p:
             return 'b"%s"' % p["bytes"]
-        return p.get("v", "?")
+        return _decode_valtree(p.get("v", "?"))
     if k == "Or":
         return " | ".join(pat_str(x) for x in p["pats"])
     if k == "Slice":
@@ -156,6 +156,33 @@ def pat_str(p):
     if k == "Range":
         return "range"
     return k or "?"
+
+
+def _decode_valtree(v):
+    """`Branch([117_u8, 114_u8]): str` -> "ur" (string constants in patterns are printed as valtrees)."""
+    import re
+    m = re.match(r"^Branch\(\[([0-9_u, ]*)\]\): (str|\[u8\])$", v)
+    if not m:
+        m2 = re.match(r"^Leaf\((0x[0-9a-f]+)\): (\w+)$", v)
+        if m2:
+            return str(int(m2.group(1), 16))
+        return v
+    bs = bytes(int(x.strip().split("_")[0]) for x in m.group(1).split(",") if x.strip())
+    return '"%s"' % bs.decode("utf-8", "replace")
+
+
+def const_pat_value(p):
+    """String value of a constant pattern (None if not a string/bytes constant)."""
+    if p.get("k") == "Deref":
+        p = p["sub"]
+    if p.get("k") != "Const":
+        return None
+    if "bytes" in p:
+        return p["bytes"]
+    s = _decode_valtree(p.get("v", ""))
+    if s.startswith('"') and s.endswith('"'):
+        return s[1:-1]
+    return None
 
 
 def _sub_str(s):
